@@ -1519,3 +1519,106 @@ def replay_adv(run, body):
 
 
 REPLAYERS["adv"] = replay_adv
+
+
+# =============================================================== Grammar (C14 C15)
+
+def gram_text(c):
+    return "%s: %s" % (c["kind"], " ".join(c["toks"])[:200])
+
+
+def grammar_cases(run, with_err=True):
+    t = "thorough" if run.tier == "thorough" else "quick"
+    cases = []
+    for cfg, what in (("Grammar_" + t, "L1 Denotes (postfix evaluates to the tree's value) over all expression trees + export"),
+                      ("Grammar_wide", "L1 Denotes over all one-operator trees on the full leaf catalogue + export")):
+        r = core.tlc(run.work, "Grammar", cfg, timeout=3000)
+        run.add_tlc(r, what)
+        for c in r.cases:
+            cases.append({"kind": "expr", "toks": c["toks"], "ops": c["ops"]})
+    r = core.tlc(run.work, "GrammarElems", "GrammarElems", timeout=1700)
+    run.add_tlc(r, "L1 element generator (terms, parameters, facts, rules, checks with or, policies, blocks, authorizers, error classes) + export")
+    for c in r.cases:
+        if c.get("experr") and not with_err:
+            continue
+        cases.append(c)
+    for i, c in enumerate(cases):
+        c["id"] = "g%d" % i
+        c["layout"] = run.seed * 7919 + i
+    return cases
+
+
+def gram_stage(run, driver, cases, label):
+    res = core.run_driver(driver, "grammar", cases, per_case_timeout=120)
+    by_id = {c["id"]: c for c in cases}
+    n = 0
+    for c in cases:
+        o = res[c["id"]]
+        run.count(gram_text(c) + ("#%d" % c["corrupt"] if c.get("corrupt") else ""))
+        bad = o.get("bad") if not o.get("crash") else ["process died: " + o.get("stderr", "")[-300:]]
+        if bad is None:
+            bad = ["driver: " + json.dumps(o)[:300]]
+        if bad and n < 25:
+            n += 1
+            rc = confirm_case(driver, "grammar", c, o, ("bad",), by_id)
+            what = "panic" if "PANIC" in bad[-1] else ("error-class" if c.get("experr") else bad[0][:40])
+            run.report({"what": what, "kind": c["kind"], "why": c.get("why", "")}, rc, "grammar",
+                       "%s %s%s -> %s" % (label, gram_text(c), " [" + c["why"] + "]" if c.get("why") else "", "; ".join(bad[:2])), (lambda rc=rc: rc is not None))
+    run.traces += len(cases)
+
+
+@check("C14")
+def c14(run):
+    run.rule = ("L1: Grammar.tla generates expression trees (exactly n operator nodes over a leaf catalogue) and renders them with exactly the "
+                "parentheses the documented precedence/associativity table makes necessary (plus explicit redundant ones); TLC checks Denotes "
+                "(the stack machine of Expr.tla on the expected postfix form yields the value of the tree) for all 17,175 (quick) trees with <=2 "
+                "operators + all one-operator trees over 9 leaves. GrammarElems.tla generates facts / rules / checks with `or` / policies / blocks "
+                "/ authorizers over 13 term forms (every term kind, parameters) with their denotation, and the documented error classes. "
+                "L2: every token list is laid out with seeded whitespace and parsed by the six FromString* functions and a shared Parser; "
+                "the returned structures must equal the denotation, error classes must be errors, every parsed element is added to a "
+                "Builder, BlockBuilder and authorizer and evaluated; plus seeded token-level corruptions (drop / duplicate / swap / truncate / "
+                "junk token) with oracle 'no panic'. Non-trivial = distinct texts.")
+    run.assumptions = ["the grammar is a generator with a denotation, not a recogniser of all strings: outside it only 'no panic' is decided",
+                       "lexer details (Unicode, exotic whitespace) are sampled through the corruption tokens only"]
+    driver = core.build_driver(run.work)
+    cases = grammar_cases(run)
+    gram_stage(run, driver, cases, "L2")
+    import random
+    rnd = random.Random(run.seed)
+    cor = []
+    for i in range(6000 if run.tier == "quick" else 100000):
+        b = rnd.choice(cases)
+        cor.append(dict(b, id="x%d" % i, corrupt=run.seed * 1000003 + i + 1))
+    gram_stage(run, driver, cor, "token-level corruption")
+    run.sample({"text": gram_text(cases[1234]), "expected_postfix": cases[1234].get("ops")})
+    run.sample({"text": gram_text(cases[-5]), "documented_error": cases[-5].get("why")})
+
+
+@check("C15")
+def c15(run):
+    run.rule = ("Same generators as C14, restricted to the printable domain of the property (no string sets, error classes excluded). "
+                "Every generated block -- and every generated expression wrapped in a check -- is parsed, placed BOTH in authority position "
+                "and in a later block of a real token; the text printed by Code() (later block) and String() (authority block) is parsed "
+                "back with FromStringBlock and must equal the original parse structurally, before and after Serialize/Unmarshal; the "
+                "printed form must be identical before and after serialization. L1 as in C14 (Denotes).")
+    run.assumptions = ["String()'s %v lists are only unambiguous for at most one fact, rule and check per block: larger blocks are inspected through Code() only"]
+    driver = core.build_driver(run.work)
+    cases = [dict(c, **{"print": True}) for c in grammar_cases(run, with_err=False)
+             if c["kind"] in ("expr", "block", "rule", "check", "fact") and '"read"]' not in " ".join(c["toks"])]
+    if run.tier == "quick":
+        cases = [c for i, c in enumerate(cases) if c["kind"] != "expr" or i % 3 == run.seed % 3]
+    gram_stage(run, driver, cases, "print round trip")
+    run.sample({"text": gram_text(cases[777])})
+
+
+def replay_grammar(run, body):
+    driver = core.build_driver(run.work)
+    run.count("replay")
+    run.count("replay2")
+    for c, o in run_window(driver, "grammar", body["case"]):
+        if o.get("crash") or o.get("bad"):
+            run.report(body["sig"], body["case"], "grammar", "replayed: %s -> %s" % (gram_text(c), o.get("bad") or "process died"))
+            return
+
+
+REPLAYERS["grammar"] = replay_grammar
